@@ -425,3 +425,52 @@ var verifFuncs = map[string]interface{}{
 	"VerifC04Accept": VerifC04Accept,
 	"VerifC04Reject": VerifC04Reject,
 }
+
+// ---------------------------------------------------------------- C18
+
+// VerifC18Dep: Parse returns a value or an error, never both, and the same thing when called again.
+func VerifC18Dep(s string) int {
+	d1, e1 := Parse(s)
+	if (e1 != nil) == (d1 != nil) {
+		return 1
+	}
+	d2, e2 := Parse(s)
+	if (e1 == nil) != (e2 == nil) {
+		return 2
+	}
+	if e1 == nil && verifDump(d1) != verifDump(d2) {
+		return 3
+	}
+	return 0
+}
+
+// VerifC18Arch: ParseArch / ParseArchitectures return and are repeatable.
+func VerifC18Arch(s string) int {
+	a1, e1 := ParseArch(s)
+	if e1 == nil && a1 == nil {
+		return 1
+	}
+	a2, e2 := ParseArch(s)
+	if (e1 == nil) != (e2 == nil) || (e1 == nil && !eqArchP(a1, a2)) {
+		return 2
+	}
+	l1, e3 := ParseArchitectures(s)
+	l2, e4 := ParseArchitectures(s)
+	if (e3 == nil) != (e4 == nil) || len(l1) != len(l2) {
+		return 3
+	}
+	if e3 != nil && l1 != nil {
+		return 4
+	}
+	for i := range l1 {
+		if !eqArchP(&l1[i], &l2[i]) {
+			return 5
+		}
+	}
+	return 0
+}
+
+func init() {
+	verifFuncs["VerifC18Dep"] = VerifC18Dep
+	verifFuncs["VerifC18Arch"] = VerifC18Arch
+}
